@@ -191,11 +191,11 @@ include hi hfn
 /-- `lock` / `unlock` refine the specification -/
 theorem lockM_refines (b : Bool) :
     ∃ res w', modifyM name (some b) none none w = (res, w') ∧ WInv w' sb L ∧ w'.c = w.c ∧
-      stepOk P (volOf w.img w.c sb L) (if b then .lock (pathOfName fname) else .unlock (pathOfName fname))
-        (isOk res) (volOf w'.img w.c sb L) = true := by
+      StepL P (volOf w.img w.c sb L) (if b then .lock (pathOfName fname) else .unlock (pathOfName fname))
+        (isOk res) (volOf w'.img w.c sb L) True := by
   rw [modifyM_eval hi hfn]
   cases hf : findIn w.img w.c fname L.cat with
-  | none => exact ⟨_, _, rfl, hi, rfl, stepOk_refused_same hi.wf _⟩
+  | none => exact ⟨_, _, rfl, hi, rfl, StepL.refused_same hi.wf _ _⟩
   | some res =>
     obtain ⟨dt, ds, dir, k⟩ := res
     obtain ⟨hnm, hfl, hfb⟩ := found_name hi hf
@@ -208,8 +208,8 @@ theorem lockM_refines (b : Bool) :
       refine ⟨_, _, hw, hinv, hcc, ?_⟩
       rw [hcc] at hvol
       rw [hvol, ← hfp]
-      exact stepOk_lock_replaced hfiles hi.wf (by rw [hgp, hfp]) (by rw [hglk]; simpa using or128_ge _) hc he ho
-        (by rw [hgt, hft]; exact or128_mod _) ha hd
+      exact ⟨stepOk_lock_replaced hfiles hi.wf (by rw [hgp, hfp]) (by rw [hglk]; simpa using or128_ge _) hc he ho
+        (by rw [hgt, hft]; exact or128_mod _) ha hd, fun _ => noLeak_replaced hfiles ho⟩
     | false =>
       simp only [Bool.false_eq_true, if_false]
       obtain ⟨w', hw, hinv, hcc, F1, F2, f, g, hfiles, hvol, hfp, hgp, hft, hflk, hgt, hglk, hc, he, ho, ha, hd, _⟩ :=
@@ -217,23 +217,23 @@ theorem lockM_refines (b : Bool) :
       refine ⟨_, _, hw, hinv, hcc, ?_⟩
       rw [hcc] at hvol
       rw [hvol, ← hfp]
-      exact stepOk_unlock_replaced hfiles hi.wf (by rw [hgp, hfp]) (by rw [hglk]; simpa using and127_lt _) hc he ho
-        (by rw [hgt, hft]; exact and127_mod _) ha hd
+      exact ⟨stepOk_unlock_replaced hfiles hi.wf (by rw [hgp, hfp]) (by rw [hglk]; simpa using and127_lt _) hc he ho
+        (by rw [hgt, hft]; exact and127_mod _) ha hd, fun _ => noLeak_replaced hfiles ho⟩
 
 /-- `retype` refines the specification (`ty` = what `FileType::from_str` made of the requested type) -/
 theorem retypeM_refines (ty : Option Nat) :
     ∃ res w', modifyM name none none (some ty) w = (res, w') ∧ WInv w' sb L ∧ w'.c = w.c ∧
-      stepOk P (volOf w.img w.c sb L) (.retype (pathOfName fname))
-        (isOk res) (volOf w'.img w.c sb L) = true := by
+      StepL P (volOf w.img w.c sb L) (.retype (pathOfName fname))
+        (isOk res) (volOf w'.img w.c sb L) True := by
   rw [modifyM_eval hi hfn]
   cases hf : findIn w.img w.c fname L.cat with
-  | none => exact ⟨_, _, rfl, hi, rfl, stepOk_refused_same hi.wf _⟩
+  | none => exact ⟨_, _, rfl, hi, rfl, StepL.refused_same hi.wf _ _⟩
   | some res =>
     obtain ⟨dt, ds, dir, k⟩ := res
     obtain ⟨hnm, hfl, hfb⟩ := found_name hi hf
     simp only [Option.isSome_none, Bool.false_eq_true, and_false, if_false, newNameR, newType, hnm]
     cases ty with
-    | none => exact ⟨_, _, rfl, hi, rfl, stepOk_refused_same hi.wf _⟩
+    | none => exact ⟨_, _, rfl, hi, rfl, StepL.refused_same hi.wf _ _⟩
     | some t =>
       simp only
       obtain ⟨w', hw, hinv, hcc, F1, F2, f, g, hfiles, hvol, hfp, hgp, hft, hflk, hgt, hglk, hc, he, ho, ha, hd, _⟩ :=
@@ -241,7 +241,7 @@ theorem retypeM_refines (ty : Option Nat) :
       refine ⟨_, _, hw, hinv, hcc, ?_⟩
       rw [hcc] at hvol
       rw [hvol, ← hfp]
-      exact stepOk_retype_replaced hfiles hi.wf (by rw [hgp, hfp]) hc he ho hd
+      exact ⟨stepOk_retype_replaced hfiles hi.wf (by rw [hgp, hfp]) hc he ho hd, fun _ => noLeak_replaced hfiles ho⟩
 
 end ops
 
@@ -287,17 +287,17 @@ theorem renameM_refines {P : FsParams} {w : W} {sb : List Nat} {L : Lay} (hi : W
     (hfn : stringToFileName name = .ok fname) (hnn : stringToFileName newName = .ok nf)
     (hnl : nf.length = 30) (hnb : ∀ x ∈ nf, 128 ≤ x ∧ x < 256) (hfree : findIn w.img w.c nf L.cat = none) :
     ∃ res w', modifyM name none (some newName) none w = (res, w') ∧ WInv w' sb L ∧ w'.c = w.c ∧
-      stepOk P (volOf w.img w.c sb L) (.rename (pathOfName fname) (pathOfName nf))
-        (isOk res) (volOf w'.img w.c sb L) = true := by
+      StepL P (volOf w.img w.c sb L) (.rename (pathOfName fname) (pathOfName nf))
+        (isOk res) (volOf w'.img w.c sb L) True := by
   rw [modifyM_eval hi hfn]
   cases hf : findIn w.img w.c fname L.cat with
-  | none => exact ⟨_, _, rfl, hi, rfl, stepOk_refused_same hi.wf _⟩
+  | none => exact ⟨_, _, rfl, hi, rfl, StepL.refused_same hi.wf _ _⟩
   | some res =>
     obtain ⟨dt, ds, dir, k⟩ := res
     simp only [Option.isSome_some, and_true, newNameR, newType, hnn]
     by_cases hlk : Dir.fileType dir k > 127
     · rw [if_pos hlk]
-      exact ⟨_, _, rfl, hi, rfl, stepOk_refused_same hi.wf _⟩
+      exact ⟨_, _, rfl, hi, rfl, StepL.refused_same hi.wf _ _⟩
     · rw [if_neg hlk]
       have hfresh := not_listed_of_findIn_none hi hnl hnb hfree
       obtain ⟨w', hw, hinv, hcc, F1, F2, f, g, hfiles, hvol, hfp, hgp, hft, hflk, hgt, hglk, hc, he, ho, ha, hd, _⟩ :=
@@ -305,7 +305,7 @@ theorem renameM_refines {P : FsParams} {w : W} {sb : List Nat} {L : Lay} (hi : W
       refine ⟨_, _, hw, hinv, hcc, ?_⟩
       rw [hcc] at hvol
       rw [hvol, ← hfp, ← hgp]
-      exact stepOk_rename_replaced hfiles hi.wf (by rw [hgp]; exact hfresh) (by rw [hflk]; simp only [decide_eq_false_iff_not]; omega)
-        (by rw [hglk, hflk]) hc he ho hd
+      exact ⟨stepOk_rename_replaced hfiles hi.wf (by rw [hgp]; exact hfresh) (by rw [hflk]; simp only [decide_eq_false_iff_not]; omega)
+        (by rw [hglk, hflk]) hc he ho hd, fun _ => noLeak_replaced hfiles ho⟩
 
 end A2Verif.Fs.Dos3x
